@@ -2261,3 +2261,339 @@ Proof.
     replace (mx <? blen (c :: l))%nat with true by (symmetry; apply Nat.ltb_lt; exact Hl).
     left. subst col. replace (1 + (n - 1))%nat with n by lia. reflexivity.
 Qed.
+
+(* ------------------------------------------------------------------------------------------------ *)
+(* convergence of the CLI loop: the output of  L001; L002; L003; L010; L007  is a fixed point of each of the five *)
+
+Lemma thread_chars : forall ls st flag, map (fun fl : bool * list cc => chars (snd fl)) (thread st flag ls) = ls.
+Proof.
+  induction ls as [|l r IH]; intros st flag; [reflexivity|]. cbn [thread map snd]. rewrite chars_combine by apply lex_length.
+  f_equal. apply IH.
+Qed.
+
+Lemma clines_chars : forall t, join_nl (map (fun fl : bool * list cc => chars (snd fl)) (clines t)) = t.
+Proof. intro t. rewrite clines_thread. rewrite thread_chars. apply join_split. Qed.
+
+(* every classified line of t is a fixed point of the line rewriter f *)
+Definition Lfix (f : list cc -> list cc) (t : list ch) : Prop := Forall (fun fl : bool * list cc => f (snd fl) = snd fl) (clines t).
+
+Lemma Lfix_fixed : forall f t, Lfix f t -> per_cline f t = t.
+Proof.
+  intros f t H. unfold per_cline. rewrite <- (clines_chars t) at 2. f_equal. apply map_ext_in. intros fl Hfl.
+  unfold Lfix in H. rewrite Forall_forall in H. rewrite (H fl Hfl). reflexivity.
+Qed.
+
+Lemma Lfix_per : forall f g t, lock g -> (forall l, f l = l -> f (g l) = g l) -> Lfix f t -> Lfix f (per_cline g t).
+Proof.
+  intros f g t Hg Hs H. unfold Lfix in *. rewrite (relex g t Hg). rewrite Forall_forall in *. intros fl Hfl.
+  apply in_map_iff in Hfl. destruct Hfl as (fl0 & E & H0). subst fl. unfold on_snd. cbn [snd]. apply Hs. apply H. exact H0.
+Qed.
+
+Lemma Lfix_self : forall f t, lock f -> (forall l, f (f l) = f l) -> Lfix f (per_cline f t).
+Proof.
+  intros f t Hf Hi. unfold Lfix. rewrite (relex f t Hf). rewrite Forall_forall. intros fl Hfl.
+  apply in_map_iff in Hfl. destruct Hfl as (fl0 & E & H0). subst fl. unfold on_snd. cbn [snd]. apply Hi.
+Qed.
+
+Lemma trim_r_fix_iff : forall {A} (p : A -> bool) l, trim_r p l = l <-> (forall c, lastc l = Some c -> p c = false).
+Proof.
+  intros A p l. split.
+  - intros E c Hc. rewrite <- E in Hc. eapply lastc_trim_r. exact Hc.
+  - induction l as [|c t IH]; intro H; [reflexivity|]. rewrite trim_r_cons. destruct t as [|d t].
+    + cbn [trim_r]. rewrite (H c eq_refl). reflexivity.
+    + rewrite IH; [reflexivity|]. intros x Hx. apply H. rewrite lastc_cons by discriminate. exact Hx.
+Qed.
+
+Lemma lblank_tblank : forall p, lblank p = true -> tblank p = true.
+Proof.
+  intros p H. unfold lblank, tblank, code0 in *. apply andb_prop in H. destruct H as [H1 H2]. rewrite H1, H2. reflexivity.
+Qed.
+
+Lemma cspace_tblank : forall p, cspace p = true -> tblank p = true.
+Proof. intros p H. apply lblank_tblank. apply cspace_lblank. exact H. Qed.
+
+(* a line without a removable trailing blank that consists of indentation only is empty *)
+Lemma all_lblank_S1_nil : forall l, forallb lblank l = true -> trim_r tblank l = l -> l = [].
+Proof.
+  intros l Hb H. destruct (lastc l) as [c|] eqn:E; [|apply lastc_none; exact E].
+  pose proof (proj1 (trim_r_fix_iff tblank l) H c E) as Hc. apply lastc_in in E. rewrite forallb_forall in Hb.
+  rewrite (lblank_tblank c (Hb c E)) in Hc. discriminate.
+Qed.
+
+Lemma S1_tail : forall a b, b <> [] -> trim_r tblank (a ++ b) = a ++ b <-> trim_r tblank b = b.
+Proof.
+  intros a b Hb. rewrite !trim_r_fix_iff. rewrite lastc_app by exact Hb. reflexivity.
+Qed.
+
+Lemma f2_keeps_S1 : forall l, l001_line l = l -> l001_line (l002_line l) = l002_line l.
+Proof.
+  unfold l001_line. intros l H. unfold l002_line, leading_ws. destruct (trim_l lblank l) as [|c r] eqn:E.
+  - apply trim_l_nil_iff in E. rewrite (all_lblank_S1_nil l E H). reflexivity.
+  - apply S1_tail; [discriminate|]. rewrite <- (take_trim_l lblank l) in H. rewrite E in H. apply S1_tail in H; [exact H|discriminate].
+Qed.
+
+Lemma scan10_last : forall r ps c, lastc r = Some c -> cspace c = false -> lastc (l010_scan ps r) = Some c.
+Proof.
+  induction r as [|d t IH]; intros ps c H Hc; [discriminate|]. destruct t as [|e t].
+  - cbn in H. injection H as H. subst d. cbn [l010_scan]. rewrite Hc. reflexivity.
+  - rewrite lastc_cons in H by discriminate. remember (e :: t) as r eqn:Er. clear Er. cbn [l010_scan]. destruct (cspace d).
+    + rewrite lastc_app; [apply IH; assumption|]. intro En. pose proof (IH true c H Hc) as X. rewrite En in X. discriminate.
+    + rewrite lastc_cons; [apply IH; assumption|]. intro En. pose proof (IH false c H Hc) as X. rewrite En in X. discriminate.
+Qed.
+
+Lemma f10_keeps_S1 : forall l, l001_line l = l -> l001_line (l010_line l) = l010_line l.
+Proof.
+  unfold l001_line. intros l H. unfold l010_line. destruct (trim_l lblank l) as [|c r] eqn:E.
+  - apply trim_l_nil_iff in E. rewrite (all_lblank_S1_nil l E H). reflexivity.
+  - rewrite <- (take_trim_l lblank l) in H. rewrite E in H. apply S1_tail in H; [|discriminate].
+    destruct (lastc (c :: r)) as [d|] eqn:Ed; [|apply lastc_none in Ed; discriminate].
+    pose proof (proj1 (trim_r_fix_iff tblank _) H d Ed) as Hd.
+    assert (Hs : cspace d = false) by (destruct (cspace d) eqn:X; [rewrite (cspace_tblank d X) in Hd; discriminate|reflexivity]).
+    pose proof (scan10_last (c :: r) false d Ed Hs) as Hl.
+    apply S1_tail; [intro En; rewrite En in Hl; discriminate|]. apply trim_r_fix_iff. intros x Hx. rewrite Hl in Hx. injection Hx as Hx. subst. exact Hd.
+Qed.
+
+(* L002 on lines *)
+Definition S2 (l : list cc) : Prop := existsb (fun p : ch * N => is_tab (fst p)) (take_l lblank l) = false.
+
+Lemma S2_fixed : forall l, S2 l -> l002_line l = l.
+Proof.
+  intros l H. unfold l002_line, leading_ws. rewrite <- (take_trim_l lblank l) at 3. f_equal. apply flat_map_tab4_notab.
+  unfold S2 in H. induction (take_l lblank l) as [|c t IH]; [reflexivity|].
+  cbn in *. apply orb_false_elim in H. destruct H as [H1 H2]. rewrite H1. cbn. apply IH. exact H2.
+Qed.
+
+Lemma fixed_S2 : forall l, l002_line l = l -> S2 l.
+Proof. intros l H. unfold S2. rewrite <- H. apply l002_fixed_leading. Qed.
+
+Lemma take_l_app_stop : forall {A} (q : A -> bool) a p r, forallb q a = true -> q p = false -> take_l q (a ++ p :: r) = a.
+Proof. intros A q a p r Ha Hp. rewrite take_l_app_all by exact Ha. rewrite take_l_stop by exact Hp. apply app_nil_r. Qed.
+
+Lemma f10_lead : forall l, take_l lblank (l010_line l) = take_l lblank l.
+Proof.
+  intro l. unfold l010_line. destruct (trim_l lblank l) as [|p r] eqn:E.
+  - cbn [l010_scan]. rewrite app_nil_r. apply take_l_all_id. apply take_l_all.
+  - pose proof (trim_l_head _ _ _ _ E) as Hp. cbn [l010_scan].
+    assert (Hc : cspace p = false) by (destruct (cspace p) eqn:X; [rewrite (cspace_lblank p X) in Hp; discriminate|reflexivity]).
+    rewrite Hc. apply take_l_app_stop; [apply take_l_all|exact Hp].
+Qed.
+
+Lemma f10_keeps_S2 : forall l, l002_line l = l -> l002_line (l010_line l) = l010_line l.
+Proof. intros l H. apply S2_fixed. unfold S2. rewrite f10_lead. apply fixed_S2. exact H. Qed.
+
+(* L010 on lines: nothing to remove *)
+Fixpoint ok10 (ps : bool) (l : list cc) : bool :=
+  match l with
+  | [] => true
+  | p :: t => if cspace p then negb ps && ok10 true t else ok10 false t
+  end.
+
+Lemma scan10_len : forall l ps, (length (l010_scan ps l) <= length l)%nat.
+Proof.
+  induction l as [|p t IH]; intro ps; [cbn; lia|]. cbn [l010_scan]. destruct (cspace p).
+  - rewrite app_length. specialize (IH true). destruct ps; cbn [length]; lia.
+  - cbn [length]. specialize (IH false). lia.
+Qed.
+
+Lemma scan10_fix_iff : forall l ps, l010_scan ps l = l <-> ok10 ps l = true.
+Proof.
+  induction l as [|p t IH]; intro ps; [split; reflexivity|]. cbn [l010_scan ok10]. destruct (cspace p).
+  - destruct ps; cbn [negb andb app].
+    + split; [|discriminate]. intro E. pose proof (scan10_len t true) as L. rewrite E in L. cbn [length] in L. lia.
+    + rewrite <- IH. split; [intro E; injection E as E; exact E|intro E; rewrite E; reflexivity].
+  - rewrite <- IH. split; [intro E; injection E as E; exact E|intro E; rewrite E; reflexivity].
+Qed.
+
+Lemma line10_fix_iff : forall l, l010_line l = l <-> ok10 false (trim_l lblank l) = true.
+Proof.
+  intro l. unfold l010_line. rewrite <- scan10_fix_iff. split.
+  - intro E. rewrite <- (take_trim_l lblank l) in E at 3. apply app_inv_head in E. exact E.
+  - intro E. rewrite E. apply take_trim_l.
+Qed.
+
+Section CliIdem.
+  Variables is_letter is_digit is_space : N -> bool.
+  Variable upper_ascii : N -> option N.
+  Variable keywords : list (list N).
+  Hypothesis up_plain : forall x u, upper_ascii x = Some u -> plainN x /\ plainN u.
+  Hypothesis up_letter : forall x u, upper_ascii x = Some u -> is_letter u = true.
+  Hypothesis up_idem : forall x u, upper_ascii x = Some u -> upper_ascii u = Some u.
+  Hypothesis up_nows : forall x u, upper_ascii x = Some u -> is_space x = false /\ x <> 32 /\ x <> 9 /\ x <> 10.
+  Hypothesis sp_nodelim : is_space 39 = false /\ is_space 34 = false /\ is_space 96 = false /\
+                          is_space 45 = false /\ is_space 42 = false /\ is_space 47 = false.
+  Hypothesis sp32 : is_space 32 = true.
+
+  Notation prel := (prel upper_ascii).
+  Notation f7 := (l007_line is_letter is_digit upper_ascii keywords).
+  Notation cblank := (cblank is_space).
+  Notation pass := (l003_pass is_space).
+
+  Lemma f7_prel : forall l, Forall2 prel l (f7 l).
+  Proof. intro l. apply line7_prel. Qed.
+
+  (* a related character has the same layout role *)
+  Lemma prel_roles : forall p p', prel p p' ->
+    tblank p' = tblank p /\ lblank p' = lblank p /\ cspace p' = cspace p /\ spacec is_space (fst p') = spacec is_space (fst p) /\
+    (lblank p = true -> p' = p).
+  Proof.
+    intros p p' [H|(K & u & H1 & H2)]; [subst; repeat split; reflexivity|]. subst p'.
+    destruct (up_nows _ _ H1) as (A & B & C & _). destruct (up_nows _ _ (up_idem _ _ H1)) as (A' & B' & C' & _).
+    assert (Eb : is_blank (fst p) = false).
+    { unfold is_blank, is_sp, is_tab. apply N.eqb_neq in B. apply N.eqb_neq in C. rewrite B, C. reflexivity. }
+    assert (Eb' : is_blank (asc u) = false).
+    { unfold is_blank, is_sp, is_tab. cbn [asc cp]. apply N.eqb_neq in B'. apply N.eqb_neq in C'. rewrite B', C'. reflexivity. }
+    assert (Es : is_sp (fst p) = false) by (unfold is_blank in Eb; apply orb_false_elim in Eb; tauto).
+    assert (Es' : is_sp (asc u) = false) by (unfold is_blank in Eb'; apply orb_false_elim in Eb'; tauto).
+    unfold tblank, lblank, cspace, spacec. cbn [fst snd]. rewrite Eb, Eb', Es, Es'. cbn [asc cp]. rewrite A, A'.
+    repeat split; try reflexivity. discriminate.
+  Qed.
+
+  Lemma prel_lastc : forall l l', Forall2 prel l l' ->
+    match lastc l, lastc l' with Some p, Some p' => prel p p' | None, None => True | _, _ => False end.
+  Proof.
+    intros l l' H. induction H as [|p p' t t' Hp Ht IH]; [exact I|]. destruct Ht as [|q q' t t' Hq Ht].
+    - cbn. exact Hp.
+    - rewrite (lastc_cons p (q :: t)) by discriminate. rewrite (lastc_cons p' (q' :: t')) by discriminate. exact IH.
+  Qed.
+
+  Lemma f7_keeps_S1 : forall l, l001_line l = l -> l001_line (f7 l) = f7 l.
+  Proof.
+    unfold l001_line. intros l H. apply trim_r_fix_iff. intros c' Hc'. pose proof (prel_lastc _ _ (f7_prel l)) as R.
+    rewrite Hc' in R. destruct (lastc l) as [c|] eqn:E; [|contradiction].
+    destruct (prel_roles _ _ R) as (T & _). rewrite T. apply (proj1 (trim_r_fix_iff tblank l) H). exact E.
+  Qed.
+
+  Lemma prel_take : forall l l', Forall2 prel l l' -> take_l lblank l' = take_l lblank l /\ Forall2 prel (trim_l lblank l) (trim_l lblank l').
+  Proof.
+    intros l l' H. induction H as [|p p' t t' Hp Ht IH]; [split; [reflexivity|constructor]|].
+    destruct (prel_roles _ _ Hp) as (_ & L & _ & _ & Same). cbn [take_l trim_l]. rewrite L. destruct (lblank p) eqn:E.
+    - rewrite (Same eq_refl). destruct IH as [IH1 IH2]. rewrite IH1. split; [reflexivity|exact IH2].
+    - split; [reflexivity|]. constructor; assumption.
+  Qed.
+
+  Lemma f7_keeps_S2 : forall l, l002_line l = l -> l002_line (f7 l) = f7 l.
+  Proof.
+    intros l H. apply S2_fixed. unfold S2. destruct (prel_take _ _ (f7_prel l)) as [E _]. rewrite E. apply fixed_S2. exact H.
+  Qed.
+
+  Lemma prel_ok10 : forall l l', Forall2 prel l l' -> forall ps, ok10 ps l' = ok10 ps l.
+  Proof.
+    intros l l' H. induction H as [|p p' t t' Hp Ht IH]; intro ps; [reflexivity|]. cbn [ok10].
+    destruct (prel_roles _ _ Hp) as (_ & _ & C & _). rewrite C. destruct (cspace p); rewrite IH; reflexivity.
+  Qed.
+
+  Lemma f7_keeps_S10 : forall l, l010_line l = l -> l010_line (f7 l) = f7 l.
+  Proof.
+    intros l H. apply line10_fix_iff. destruct (prel_take _ _ (f7_prel l)) as [_ R]. rewrite (prel_ok10 _ _ R).
+    apply line10_fix_iff. exact H.
+  Qed.
+
+  (* blank lines *)
+  Lemma blank_line_iff : forall l, blank_line is_space l = forallb (spacec is_space) l.
+  Proof.
+    intro l. destruct (blank_line is_space l) eqn:E; [symmetry; apply blank_line_all; exact E|].
+    symmetry. apply not_true_is_false. intro H. unfold blank_line, trim_space in E.
+    apply trim_l_nil_iff in H. rewrite H in E. discriminate.
+  Qed.
+
+  Lemma cspace_spacec : forall p, cspace p = true -> spacec is_space (fst p) = true.
+  Proof.
+    intros p H. unfold cspace in H. apply andb_prop in H. destruct H as [H _]. unfold is_sp in H. apply N.eqb_eq in H.
+    unfold spacec. rewrite H. exact sp32.
+  Qed.
+
+  Lemma scan10_blank : forall l ps, forallb (fun p : cc => spacec is_space (fst p)) (l010_scan ps l) = forallb (fun p : cc => spacec is_space (fst p)) l.
+  Proof.
+    induction l as [|p t IH]; intro ps; [reflexivity|]. cbn [l010_scan]. destruct (cspace p) eqn:E.
+    - rewrite forallb_app. rewrite IH. destruct ps; cbn [forallb]; rewrite ?(cspace_spacec p E); reflexivity.
+    - cbn [forallb]. rewrite IH. reflexivity.
+  Qed.
+
+  Lemma forallb_chars : forall (q : ch -> bool) l, forallb q (chars l) = forallb (fun p : cc => q (fst p)) l.
+  Proof. intros q l. unfold chars. induction l as [|p t IH]; [reflexivity|]. cbn. rewrite IH. reflexivity. Qed.
+
+  Lemma f10_cblank : forall fl, cblank (on_snd l010_line fl) = cblank fl.
+  Proof.
+    intros [flag l]. unfold Lint.cblank, on_snd. cbn [fst snd]. f_equal. rewrite !blank_line_iff. rewrite !forallb_chars.
+    unfold l010_line. rewrite forallb_app. rewrite scan10_blank. rewrite <- forallb_app. rewrite take_trim_l. reflexivity.
+  Qed.
+
+  Lemma prel_blank : forall l l', Forall2 prel l l' ->
+    forallb (fun p : cc => spacec is_space (fst p)) l' = forallb (fun p : cc => spacec is_space (fst p)) l.
+  Proof.
+    intros l l' H. induction H as [|p p' t t' Hp Ht IH]; [reflexivity|]. cbn [forallb].
+    destruct (prel_roles _ _ Hp) as (_ & _ & _ & S & _). rewrite S, IH. reflexivity.
+  Qed.
+
+  Lemma f7_cblank : forall fl, cblank (on_snd f7 fl) = cblank fl.
+  Proof.
+    intros [flag l]. unfold Lint.cblank, on_snd. cbn [fst snd]. f_equal. rewrite !blank_line_iff. rewrite !forallb_chars.
+    apply prel_blank. apply f7_prel.
+  Qed.
+
+  Lemma pass_map : forall g, (forall fl, cblank (on_snd g fl) = cblank fl) -> forall mx ls c,
+    pass mx c (map (on_snd g) ls) = map (on_snd g) (pass mx c ls).
+  Proof.
+    intros g Hg mx. induction ls as [|x r IH]; intro c; [reflexivity|]. cbn [map l003_pass]. rewrite Hg.
+    destruct (cblank x); [destruct (S c <=? mx)%nat|]; cbn [map]; rewrite IH; reflexivity.
+  Qed.
+
+  (* the text is a fixed point of L003 *)
+  Definition P3 (t : list ch) : Prop := pass 1 0 (clines t) = clines t.
+
+  Lemma P3_fixed : forall t, P3 t -> l003_fix is_space t = t.
+  Proof.
+    intros t H. unfold l003_fix, l003_fix_mx. rewrite l003_lines_eq. unfold P3 in H. rewrite H. apply clines_chars.
+  Qed.
+
+  Lemma P3_self : forall t, P3 (l003_fix is_space t).
+  Proof.
+    intro t. unfold P3, l003_fix. rewrite (l003_relex is_space sp_nodelim 1 t) by lia.
+    apply pass_fixed. exact (pass_bounded is_space 1 (clines t) 0%nat).
+  Qed.
+
+  Lemma P3_per : forall g t, lock g -> (forall fl, cblank (on_snd g fl) = cblank fl) -> P3 t -> P3 (per_cline g t).
+  Proof.
+    intros g t Hl Hg H. unfold P3 in *. rewrite (relex g t Hl). rewrite (pass_map g Hg). rewrite H. reflexivity.
+  Qed.
+
+  Lemma Lfix_l003 : forall f t, Lfix f t -> Lfix f (l003_fix is_space t).
+  Proof.
+    intros f t H. unfold Lfix, l003_fix in *. rewrite (l003_relex is_space sp_nodelim 1 t) by lia.
+    rewrite Forall_forall in *. intros fl Hfl. apply H. eapply pass_incl. exact Hfl.
+  Qed.
+
+  Notation cli := (cli_fix is_letter is_digit is_space upper_ascii keywords).
+  Notation fix7 := (l007_fix is_letter is_digit upper_ascii keywords).
+
+  Lemma l007_lock' : lock f7.
+  Proof. apply l007_lock. exact up_plain. Qed.
+
+  Theorem cli_fixed_points : forall t,
+    l001_fix (cli t) = cli t /\ l002_fix (cli t) = cli t /\ l003_fix is_space (cli t) = cli t /\
+    l010_fix (cli t) = cli t /\ fix7 (cli t) = cli t.
+  Proof.
+    intro t. unfold cli_fix. set (t1 := l001_fix t). set (t2 := l002_fix t1). set (t3 := l003_fix is_space t2).
+    set (t10 := l010_fix t3). set (t7 := fix7 t10).
+    assert (A1 : Lfix l001_line t7).
+    { apply Lfix_per; [exact l007_lock'|exact f7_keeps_S1|]. apply Lfix_per; [exact l010_lock|exact f10_keeps_S1|].
+      apply Lfix_l003. apply Lfix_per; [exact l002_lock|exact f2_keeps_S1|]. apply Lfix_self; [exact l001_lock|]. intro l. apply trim_r_idem. }
+    assert (A2 : Lfix l002_line t7).
+    { apply Lfix_per; [exact l007_lock'|exact f7_keeps_S2|]. apply Lfix_per; [exact l010_lock|exact f10_keeps_S2|].
+      apply Lfix_l003. apply Lfix_self; [exact l002_lock|exact l002_line_idem]. }
+    assert (A3 : P3 t7).
+    { apply P3_per; [exact l007_lock'|exact f7_cblank|]. apply P3_per; [exact l010_lock|exact f10_cblank|]. apply P3_self. }
+    assert (A10 : Lfix l010_line t7).
+    { apply Lfix_per; [exact l007_lock'|exact f7_keeps_S10|]. apply Lfix_self; [exact l010_lock|exact l010_line_idem]. }
+    assert (A7 : Lfix f7 t7).
+    { apply Lfix_self; [exact l007_lock'|]. apply (l007_line_idem is_letter is_digit upper_ascii keywords up_letter up_idem). }
+    split; [apply (Lfix_fixed l001_line); exact A1|]. split; [apply (Lfix_fixed l002_line); exact A2|].
+    split; [apply P3_fixed; exact A3|]. split; [apply (Lfix_fixed l010_line); exact A10|apply (Lfix_fixed f7); exact A7].
+  Qed.
+
+  Theorem cli_fix_idempotent : forall t, cli (cli t) = cli t.
+  Proof.
+    intro t. destruct (cli_fixed_points t) as (E1 & E2 & E3 & E10 & E7).
+    unfold cli_fix at 1. rewrite E1, E2, E3, E10, E7. reflexivity.
+  Qed.
+End CliIdem.
